@@ -1083,3 +1083,168 @@ Proof.
   destruct (no_abort_from le h t0 (big_init c h0 blocks t0 Hi Hnd Hlen) He Hc) as [A [B C]].
   split; [exact C|]. split; [exact A|]. intros o sc Ho. exact (step_never_aborts le _ o sc B Ho).
 Qed.
+
+(* ------------------------------------------------------------------------------------------ *)
+(* 9. the logging flag is irrelevant (since the repair of F17 the log arguments cannot panic) *)
+
+Lemma check_conf_loop_le txids h : forall snap t comp,
+  check_conf_loop true txids h snap t comp = check_conf_loop false txids h snap t comp.
+Proof.
+  induction snap as [|k snap IH]; intros t comp; cbn [check_conf_loop]; [reflexivity|].
+  destruct (memN (t_penalty k) txids).
+  - destruct (find_trk (db_trks t) (trk_uuid k)); [apply IH|reflexivity].
+  - destruct (mem_uuid (trk_uuid k) (reorged t)); [apply IH|]. destruct (t_conf k); apply IH.
+Qed.
+
+Lemma run_listeners_ext (f g : Z -> tower -> res unit) order :
+  (forall w t, f w t = g w t) -> forall t, run_listeners f order t = run_listeners g order t.
+Proof.
+  intros Hfg. induction order as [|w order IH]; intros t; cbn [run_listeners]; [reflexivity|].
+  rewrite Hfg. destruct (g w t) as [a t1|s t1]; cbn [bind]; [apply IH|reflexivity].
+Qed.
+
+Theorem step_le_irrelevant t o sc : step true t o sc = step false t o sc.
+Proof.
+  destruct o; cbn [step]; try reflexivity. f_equal. apply run_listeners_ext. intros w t0.
+  unfold listener_connected. destruct (Z.eqb w 0); [reflexivity|]. destruct (Z.eqb w 1); [reflexivity|].
+  unfold r_block_connected. destruct (ti_update _ _); [|reflexivity]. rewrite check_conf_loop_le. reflexivity.
+Qed.
+
+Theorem run_le_irrelevant : forall h t, run true t h = run false t h.
+Proof.
+  induction h as [|[o sc] h IH]; intros t; cbn [run]; [reflexivity|].
+  rewrite step_le_irrelevant. destruct (step false t o sc) as [t1 x]. rewrite IH. reflexivity.
+Qed.
+
+(* ------------------------------------------------------------------------------------------ *)
+(* 10. every hypothesis of no_abort_seq is needed: outside each clause a handler of the faithful model
+   does abort (witnesses by computation; all the other hypotheses hold in each of them) *)
+
+Definition boot2 : list (N * list N) := [(900, []); (899, [])].
+Lemma boot2_nodup : NoDup (map fst boot2).
+Proof. cbn. constructor; [intros [H|[]]; discriminate|constructor; [intros []|constructor]]. Qed.
+
+Definition aborts_with (s : site) (c : config) (h0 : N) (blocks : list (N * list N)) (h : list (op * script)) : Prop :=
+  exists t0, init c h0 blocks = Some t0 /\ last (snd (run true t0 h)) OBlockRes = OAbort s.
+
+(* ... while the remaining hypotheses hold: (in_envelope, chain_disciplined) *)
+Definition hyps_of (c : config) (h0 : N) (blocks : list (N * list N)) (h : list (op * script)) : option (bool * bool) :=
+  match init c h0 blocks with
+  | Some t0 => Some (in_envelope true t0 h, chain_disciplined true t0 h)
+  | None => None
+  end.
+
+(* the slot clause of a renewal (available + held + granted > 2^32-1): the refund of a completed tracker overflows *)
+Definition slots_cfg : config := mk_config U32MAX 1000 10.
+Definition slots_hist : list (op * script) :=
+  [ (ORegister 1, []);
+    (OAdd (Some 1) 50 (mk_blob 50 (Some 51) (U32MAX * 2048)) 20 7, []);   (* takes all 2^32-1 slots *)
+    (ORegister 1, []);                                                     (* 2^32-1 more: outside the envelope *)
+    (OConnect 1001 [50], [(51, (G_not_found, A_ok))]);                     (* breach, penalty accepted *)
+    (OConnect 1002 [51], []) ]                                             (* penalty confirmed *)
+  ++ map (fun i => (OConnect (2000 + N.of_nat i) [], [])) (seq 0 100).    (* ... 100 confirmations: refund *)
+
+Ltac witness :=
+  match goal with |- aborts_with _ ?c ?h0 ?b _ /\ _ =>
+    split; [|vm_compute; reflexivity];
+    destruct (init c h0 b) as [t0|] eqn:Ei; [|vm_compute in Ei; discriminate];
+    exists t0; split; [exact Ei|]; vm_compute in Ei; inversion Ei; subst t0; vm_compute; reflexivity
+  end.
+
+Theorem envelope_slots_needed :
+  aborts_with S_gk_refund_overflow slots_cfg 100 boot2 slots_hist /\
+  hyps_of slots_cfg 100 boot2 slots_hist = Some (false, true).
+Proof. witness. Qed.
+
+(* the expiry clause of a renewal (F12): the saturated expiry + grace overflows at the next block *)
+Definition expiry_cfg : config := mk_config 10 2147483648 10.
+Definition expiry_hist : list (op * script) := [ (ORegister 1, []); (ORegister 1, []); (OConnect 1001 [], []) ].
+
+Theorem envelope_expiry_needed :
+  aborts_with S_gk_outdated_overflow expiry_cfg 100 boot2 expiry_hist /\
+  hyps_of expiry_cfg 100 boot2 expiry_hist = Some (false, true).
+Proof. witness. Qed.
+
+(* a first registration at a height where height + duration does not fit *)
+Definition newuser_cfg : config := mk_config 10 U32MAX 10.
+Theorem envelope_new_user_needed :
+  aborts_with S_gk_new_user_expiry_overflow newuser_cfg 100 boot2 [(ORegister 1, [])] /\
+  hyps_of newuser_cfg 100 boot2 [(ORegister 1, [])] = Some (false, true).
+Proof. witness. Qed.
+
+(* a block connected below height CONFIRMATIONS_BEFORE_RETRY *)
+Definition plain_cfg : config := mk_config 10 1000 10.
+Theorem envelope_retry_needed :
+  aborts_with S_r_stale_underflow plain_cfg 2 boot2 [(OConnect 1001 [], [])] /\
+  hyps_of plain_cfg 2 boot2 [(OConnect 1001 [], [])] = Some (false, true).
+Proof. witness. Qed.
+
+(* the bootstrap window includes the genesis block (|blocks| > height): disconnecting it underflows *)
+Theorem boot_window_needed :
+  aborts_with S_gk_disconnect_underflow plain_cfg 1 boot2 [(ODisconnect, []); (ODisconnect, [])] /\
+  hyps_of plain_cfg 1 boot2 [(ODisconnect, []); (ODisconnect, [])] = Some (true, true).
+Proof. witness. Qed.
+
+(* a block hash the index already holds is connected again: remove_oldest_block unwraps None later *)
+Definition dup_hist : list (op * script) :=
+  [(OConnect 7 [], []); (OConnect 7 [], []); (OConnect 8 [], []); (OConnect 9 [], [])].
+Theorem chain_discipline_needed :
+  aborts_with S_w_cache_update plain_cfg 100 boot2 dup_hist /\
+  hyps_of plain_cfg 100 boot2 dup_hist = Some (true, false).
+Proof. witness. Qed.
+
+(* ------------------------------------------------------------------------------------------ *)
+(* 11. non-vacuity: a history inside the envelope exercising every operation (two users on one locator,
+   a breach answered, a rejected penalty, a late appointment whose trigger is in the cache, a reorg,
+   reads, an unauthenticated request, a completion with refund) *)
+Definition live_hist : list (op * script) :=
+  [ (ORegister 1, []); (ORegister 2, []); (ORegister 1, []);
+    (OAdd (Some 1) 50 (mk_blob 50 (Some 51) 3000) 20 7, []);
+    (OAdd (Some 2) 50 (mk_blob 50 (Some 52) 100) 20 8, []);
+    (OAdd (Some 1) 60 (mk_blob 60 (Some 61) 100) 20 9, []);
+    (OAdd None 70 (mk_blob 70 (Some 71) 100) 20 9, []);
+    (OAdd (Some 3) 70 (mk_blob 70 (Some 71) 100) 20 9, []);
+    (OConnect 1001 [50; 60], [(51, (G_not_found, A_ok)); (52, (G_not_found, A_ok)); (61, (G_not_found, A_code (-26)))]);
+    (OAdd (Some 2) 60 (mk_blob 60 (Some 62) 100) 20 10, [(62, (G_not_found, A_ok))]);   (* trigger in cache *)
+    (OGet (Some 1) 50, []); (OGet (Some 2) 60, []); (OGetSub (Some 2), []); (OGetSub None, []);
+    (OConnect 1002 [51; 62], []);
+    (ODisconnect, []);
+    (OConnect 1003 [51], []) ]
+  ++ map (fun i => (OConnect (2000 + N.of_nat i) [], [])) (seq 0 100).
+
+(* ------------------------------------------------------------------------------------------ *)
+(* 12. the envelope and the chain discipline as propositions *)
+
+Definition env_step (t : tower) (o : op) : Prop :=
+  match o with
+  | ORegister u =>
+      match gk_get t u with
+      | None => gk_height t + c_duration (cfg t) + c_delta (cfg t) <= U32MAX /\ c_slots (cfg t) <= U32MAX
+      | Some ui =>
+          u_slots ui + c_slots (cfg t) <= U32MAX ->       (* the renewal is granted, not RegMaxSlots *)
+          N.min U32MAX (u_expiry ui + c_duration (cfg t)) + c_delta (cfg t) <= U32MAX /\
+          bal t u + c_slots (cfg t) <= U32MAX
+      end
+  | OConnect _ _ => RETRY <= gk_height t + 1
+  | _ => True
+  end.
+
+Definition chain_step (t : tower) (o : op) : Prop :=
+  match o with OConnect hash _ => ~ In hash (ti_blocks (r_index t)) | _ => True end.
+
+Lemma envb_spec t o : envb t o = true <-> env_step t o.
+Proof.
+  destruct o as [u| | | |hash txs|]; cbn [envb env_step]; try tauto.
+  - destruct (gk_get t u) as [ui|].
+    + rewrite orb_true_iff, negb_true_iff, andb_true_iff, N.leb_gt, !N.leb_le. split.
+      * intros [H|H] Hs; [lia|exact H].
+      * intros H. destruct (N.le_gt_cases (u_slots ui + c_slots (cfg t)) U32MAX) as [Hs|Hs]; [right; exact (H Hs)|left; lia].
+    + rewrite andb_true_iff, !N.leb_le. tauto.
+  - apply N.leb_le.
+Qed.
+
+Lemma chainb_spec t o : chainb t o = true <-> chain_step t o.
+Proof.
+  destruct o as [u| | | |hash txs|]; cbn [chainb chain_step]; try tauto.
+  rewrite negb_true_iff. apply memN_false.
+Qed.
